@@ -228,7 +228,9 @@ theorem step_wf (avg : Nat → R → R → R) {s s' : MState P R} (hs : WF avg s
   · exact changePoint_wf avg hs h
   · exact swap_wf avg hs h
   · exact addSample_wf avg hs h
-  · subst h; exact addPoint_wf avg hs _ _ _ _
+  · split at h
+    · simp only [Except.ok.injEq] at h; subst h; exact addPoint_wf avg hs _ _ _ _
+    · simp at h
   · subst h; exact shiftBase_wf avg hs
   · subst h; exact savePoint_wf avg hs _ _ _ _ _
   · subst h; exact interpolate_wf avg hs
